@@ -64,8 +64,21 @@ package keeper
 // it never exceeds the epoch's allocation - a calculated total above the allocation is an error and nothing is sent.
 //@ func (k Keeper) BeginRewardDistributions
 //@   property C19
+//@   modular
+//@   modifies bank
 //@   let data = k.GetRewardDistributionData(ctx, gauge, coinToDistribute, epochCount, epochDuration).0
 //@   loop 0 invariant #total: totalDistributionCoinsCalculated.Amount == sum(rewardDistributionData.RewardCoin.Amount, 0, idx0) && 0 <= idx0 && idx0 <= len(rewardDistributionData)
 //@   ensures #c19-reported-is-calculated: result1 == nil ==> result0.Amount == sum(data.RewardCoin.Amount, 0, len(data))
 //@   ensures #c19-within-allocation: result1 == nil ==> result0.Amount <= coinToDistribute.Amount
 //@   ensures #c19-overallocation-sends-nothing: result1 != nil ==> result0.Amount == 0
+
+// The epoch trigger (C19): for every external-reward gauge, cumulative distributed amount never exceeds the deposit and the
+// trigger count never exceeds the number of epochs - proved as an invariant of the loop over the gauges of the duration
+// (one epoch distributes at most the epoch's allocation, which was checked against the undistributed remainder).
+//@ pred gaugeOk(g): g.ForSwapFee || (g.DistributedAmount.Amount <= g.DepositAmount.Amount && g.TriggeredCount <= g.TotalTriggers)
+//@ func (k Keeper) InitateGaugesForDuration
+//@   property C19
+//@   requires #gauges-ok: forall id :: k.GetGaugeByID(ctx, id).1 ==> k.GetGaugeByID(ctx, id).0.Id == id && gaugeOk(k.GetGaugeByID(ctx, id).0)
+//@   loop 0 invariant #gauges-keyed: forall id :: k.GetGaugeByID(ctx, id).1 ==> k.GetGaugeByID(ctx, id).0.Id == id
+//@   loop 0 invariant #gauges-ok: forall id :: k.GetGaugeByID(ctx, id).1 ==> gaugeOk(k.GetGaugeByID(ctx, id).0)
+//@   ensures #c19-never-over-distributed: forall id :: k.GetGaugeByID(ctx, id).1 ==> gaugeOk(k.GetGaugeByID(ctx, id).0)
